@@ -223,14 +223,34 @@ def fmt_agree(ctx, lexpr):
                 vals = [Adt(ty, v["idx"], []) for v in lexpr.adts[ty]["variants"]]
             if vals:
                 combos = [dict(list(c.items()) + [(i, v)]) for c in combos for v in vals]
+        # a character / octet parameter is a ranged quantity: comparisons against constants split the range per
+        # path, and the two methods are compared range by range
+        ranged = [i for i in range(1, cf.arg_count + 1) if cf.local_ty(i) in ("char", "u8")]
         for args in combos:
             Sc = sim.Sim([lexpr], hooks={"opaque": opaque}, inline=inl)
             Sd = sim.Sim([lexpr], inline=inl)
+            rng_c = rng_d = None
+            ac, ad = dict(args), dict(args)
+            if len(ranged) == 1:
+                hi = 0x10FFFF if cf.local_ty(ranged[0]) == "char" else 0xFF
+                rng_c, rng_d = sim.Rng(0, hi), sim.Rng(0, hi)
+                ac[ranged[0]], ad[ranged[0]] = rng_c, rng_d
             try:
-                pc = Sc.run(cf, args=dict(args))
-                pd = Sd.run(df, args=dict(args))
+                pc = Sc.run(cf, args=ac)
+                pd = Sd.run(df, args=ad)
             except sim.Limit:
                 r.violation(cf.path, "inexact", "path limit while specialising %s" % cf.path)
+                continue
+            if rng_c is not None:
+                bad = _compare_ranged(pc, pd, rng_c, rng_d)
+                desc = "%s(%s)" % (m, ",".join(repr(v) for v in args.values()))
+                if bad is None:
+                    r.ok("%s: identical sink traces on every sub-range of the %s argument" % (desc, cf.local_ty(ranged[0])), cf)
+                else:
+                    lo, hi, tcs, tds = bad
+                    r.violation(cf.path, "default-options:%s" % desc,
+                                "CustomizedFormatter::%s with Options::default() and an argument in %#x..=%#x performs %s but "
+                                "the default formatter performs %s" % (desc, lo, hi, short(tcs), short(tds)), cf.loc())
                 continue
             tc = sorted(set(sink_trace(p) for p in pc if p.end in ("return",)))
             td = sorted(set(sink_trace(p) for p in pd if p.end in ("return",)))
@@ -266,6 +286,30 @@ def fmt_agree(ctx, lexpr):
     else:
         r.violation("print::Formatter::write_bytes", "closure-sink-methods",
                     "default write_bytes element closure uses sink methods %s, customised one uses %s" % (a, b))
+
+
+def _compare_ranged(pc, pd, rng_c, rng_d):
+    """Compare two path sets range by range of a ranged argument: for each elementary sub-range (between the bounds
+    any path refined the argument to) the sets of maximal sink traces must agree.  Returns None or
+    (lo, hi, traces of the first, traces of the second) for the first differing sub-range."""
+    def rows(paths, rng):
+        out = []
+        for p in paths:
+            if p.end != "return":
+                continue
+            x = rng
+            for memo in p.memos:
+                x = memo.get(id(x), x)
+            out.append((x.lo, x.hi, sink_trace(p)))
+        return out
+    rc, rd = rows(pc, rng_c), rows(pd, rng_d)
+    cuts = sorted({lo for lo, _, _ in rc + rd} | {hi + 1 for _, hi, _ in rc + rd})
+    for a, b in zip(cuts, cuts[1:]):
+        tc = maximal(sorted({t for lo, hi, t in rc if lo <= a and b - 1 <= hi}))
+        td = maximal(sorted({t for lo, hi, t in rd if lo <= a and b - 1 <= hi}))
+        if tc != td:
+            return (a, b - 1, tc, td)
+    return None
 
 
 def maximal(traces):
